@@ -1,5 +1,7 @@
 /-
-Model of the listener dispatch decisions of dust-dds (property C33), transcribed AS CODED:
+Model of the listener dispatch decisions of dust-dds (property C33), transcribed as coded on main WITH the patches
+fixes/D38.patch, fixes/D-listen-1.patch, fixes/D-listen-2.patch, fixes/D-listen-3.patch. The behaviour before each
+patch is kept as an `…Old` function for the regression witnesses of Props/C33.lean.
 
   * dds/src/dcps/dcps_domain_participant/discovery_methods.rs
       :314-359   RequestedDeadlineMissed   reader -> subscriber -> participant
@@ -10,7 +12,8 @@ Model of the listener dispatch decisions of dust-dds (property C33), transcribed
       :1689-1725 SubscriptionMatched       reader -> subscriber -> participant
       :1738-1777 RequestedIncompatibleQos  reader -> subscriber -> participant
   * dds/src/dcps/dcps_domain_participant/communication_methods.rs
-      :299-312   new data: DataOnReaders on the subscriber, else DataAvailable on the READER ONLY (D38)
+      :299-322   new data: DataOnReaders on the subscriber, else DataAvailable reader -> subscriber -> participant
+                 (before D38.patch: on the READER ONLY)
       :332-356   SampleRejected            reader -> subscriber -> participant
 
 Every chain has the shape
@@ -92,15 +95,16 @@ def chain2 (k : Status) (c : Chain) : List Mail :=
   else if c.participant.enabled k then sendTo c .participant k
   else []
 
-/-- communication_methods.rs:299-312 as coded: there is no `else if` for the subscriber's or the participant's
-    DATA_AVAILABLE mask (D38) -/
-def dataArrivedAsCoded (c : Chain) : List Mail :=
+/-- communication_methods.rs:299-312 BEFORE fixes/D38.patch: no `else if` for the subscriber's or the participant's
+    DATA_AVAILABLE mask -/
+def dataArrivedOld (c : Chain) : List Mail :=
   if c.group.enabled .dataOnReaders then sendTo c .group .dataOnReaders
   else if c.entity.enabled .dataAvailable then sendTo c .entity .dataAvailable
   else []
 
-/-- the same decision with the missing two branches (what a repair of D38 would do) -/
-def dataArrivedRepaired (c : Chain) : List Mail :=
+/-- communication_methods.rs:299-322 with fixes/D38.patch: DATA_ON_READERS on the subscriber first, then the usual
+    precedence chain for DATA_AVAILABLE -/
+def dataArrived (c : Chain) : List Mail :=
   if c.group.enabled .dataOnReaders then sendTo c .group .dataOnReaders
   else chain3 .dataAvailable c
 
@@ -119,20 +123,32 @@ def Event.status : Event → Status
 /-- THE dispatch decision of the code: which mails one status change produces -/
 def dispatch (e : Event) (c : Chain) : List Mail :=
   match e with
-  | .dataArrived => dataArrivedAsCoded c
+  | .dataArrived => dataArrived c
   | .inconsistentTopic => chain2 .inconsistentTopic c
   | e => chain3 e.status c
 
-/-- what the listener TASK of the chosen level does with the mail: the topic listener task discards every mail
-    (dcps/listeners/topic_listener.rs:19-23: `_listener` is never called), every other task calls the callback
-    (data_writer_listener.rs, data_reader_listener.rs, publisher_listener.rs, subscriber_listener.rs,
-    domain_participant_listener.rs) -/
-def taskInvokes (e : Event) (m : Mail) : Bool :=
+/-- the decision before fixes/D38.patch -/
+def dispatchOld (e : Event) (c : Chain) : List Mail :=
+  match e with
+  | .dataArrived => dataArrivedOld c
+  | e => dispatch e c
+
+/-- what the listener TASK of the chosen level does with the mail. With fixes/D-listen-3.patch every task calls the
+    callback that belongs to the mail (topic_listener.rs, data_writer_listener.rs, data_reader_listener.rs,
+    publisher_listener.rs, subscriber_listener.rs — DataAvailable added by D38.patch —, domain_participant_listener.rs) -/
+def taskInvokes (_e : Event) (_m : Mail) : Bool := true
+
+/-- before fixes/D-listen-3.patch the topic listener task discarded every mail (`_listener` was never called) -/
+def taskInvokesOld (e : Event) (m : Mail) : Bool :=
   !(e == .inconsistentTopic && m.level == .entity)
 
 /-- the listener callbacks one status change results in: dispatch decision, then the listener task -/
 def callbacks (e : Event) (c : Chain) : List Mail :=
   (dispatch e c).filter (taskInvokes e)
+
+/-- the callbacks of the code before D38.patch and D-listen-3.patch -/
+def callbacksOld (e : Event) (c : Chain) : List Mail :=
+  (dispatchOld e c).filter (taskInvokesOld e)
 
 /-! ### a small world for the differential run (scenario sub-language of engine `listen`)
 
@@ -157,15 +173,17 @@ structure Ent where
   stored : Nat := 0                  -- reader: samples held (nothing is ever taken in this sub-language)
   lastWrite : Option Nat := none     -- writer / reader: virtual time of the last sample
   matched : List String := []        -- names of matched remote endpoints
+  known : List String := []          -- endpoints already found incompatible (writer: incompatible_subscription_list,
+                                     -- reader: incompatible_writer_list) / inconsistent (topic: inconsistent_endpoint_list)
 deriving Repr
 
 structure World where
   ents : List Ent := []
   now : Nat := 0
   log : List String := []
-  /-- conditions the code re-evaluates (and re-notifies) on EVERY worker iteration: an incompatible or
-      type-inconsistent remote endpoint is never remembered (process_discovered_readers/writers,
-      discovery_methods.rs:804-815: only MATCHED endpoints are skipped) -/
+  /-- only used by `iterateOld`: before fixes/D-listen-1.patch and D-listen-2.patch an incompatible or
+      type-inconsistent remote endpoint was re-evaluated AND re-notified on every worker iteration
+      (process_discovered_readers/writers skip only MATCHED endpoints) -/
   persist : List (Event × String) := []
   /-- virtual time of the last worker iteration (API call or 50 ms poke) -/
   lastIter : Nat := 0
@@ -209,9 +227,9 @@ def cbName : Status → String
   | .subscriptionMatched => "on_subscription_matched"
 
 /-- raise `ev` for entity `e` (endpoint or topic): append `<owner>.<callback> src=<entity the callback is about>` -/
-def raise (w : World) (ev : Event) (e : Ent) : World :=
+def raiseWith (cb : Event → Chain → List Mail) (w : World) (ev : Event) (e : Ent) : World :=
   let (c, g, p) := if e.kind == .topic then chainOfTopic w e else chainOfEndpoint w e
-  let mails := callbacks ev c
+  let mails := cb ev c
   let line (m : Mail) : String :=
     let owner := match m.level with
       | .entity => e.name
@@ -221,6 +239,9 @@ def raise (w : World) (ev : Event) (e : Ent) : World :=
     let src := if m.cb == .dataOnReaders then g else e.name
     s!"{owner}.{cbName m.cb} src={src}"
   { w with log := w.log ++ mails.map line }
+
+def raise (w : World) (ev : Event) (e : Ent) : World := raiseWith callbacks w ev e
+def raiseOld (w : World) (ev : Event) (e : Ent) : World := raiseWith callbacksOld w ev e
 
 def durLe (a b : Option Nat) : Bool :=
   match a, b with
@@ -234,7 +255,21 @@ def compatible (wr rd : Ent) : Bool :=
 
 def topicOf (w : World) (e : Ent) : Option Ent := w.find e.topic
 
-/-- a writer and a reader meet (same DDS topic name): match, incompatible QoS, or inconsistent topic -/
+/-- record `who` in the `known` list of entity `n`; returns the world and whether it was new
+    (`add_incompatible_subscription` / `add_requested_incompatible_qos` / `add_inconsistent_endpoint` return `is_new`) -/
+def noteKnown (w : World) (n who : String) : World × Bool :=
+  match w.find n with
+  | some e => if e.known.contains who then (w, false) else (World.update w { e with known := e.known ++ [who] }, true)
+  | none => (w, false)
+
+/-- raise `ev` about entity `n` (looked up again: its record may have changed) -/
+def raiseOn (w : World) (ev : Event) (n : String) : World :=
+  match w.find n with
+  | some e => raise w ev e
+  | none => w
+
+/-- a writer and a reader meet (same DDS topic name): match, incompatible QoS, or inconsistent topic.
+    An incompatible / inconsistent remote endpoint changes the status ONCE (fixes/D-listen-1.patch, D-listen-2.patch) -/
 def meet (w : World) (wrn rdn : String) : World :=
   match w.find wrn, w.find rdn with
   | some wr, some rd =>
@@ -242,26 +277,32 @@ def meet (w : World) (wrn rdn : String) : World :=
     | some tw, some tr =>
       if tw.tname != tr.tname then w
       else if tw.ty != tr.ty then
-        -- each side blames its own topic
-        let w := raise w .inconsistentTopic tw
-        let w := raise w .inconsistentTopic tr
-        { w with persist := w.persist ++ [(.inconsistentTopic, tw.name), (.inconsistentTopic, tr.name)] }
+        -- each side blames its own topic, once per offending remote endpoint
+        let (w, n1) := noteKnown w tw.name rdn
+        let w := if n1 then raiseOn w .inconsistentTopic tw.name else w
+        let (w, n2) := noteKnown w tr.name wrn
+        if n2 then raiseOn w .inconsistentTopic tr.name else w
       else if compatible wr rd then
         let w := World.update w { wr with matched := wr.matched ++ [rdn] }
         let w := World.update w { rd with matched := rd.matched ++ [wrn] }
         let w := raise w .publicationMatched wr
         raise w .subscriptionMatched rd
       else
-        let w := raise w .offeredIncompatibleQos wr
-        let w := raise w .requestedIncompatibleQos rd
-        { w with persist := w.persist ++ [(.offeredIncompatibleQos, wrn), (.requestedIncompatibleQos, rdn)] }
+        let (w, n1) := noteKnown w wrn rdn
+        let w := if n1 then raiseOn w .offeredIncompatibleQos wrn else w
+        let (w, n2) := noteKnown w rdn wrn
+        if n2 then raiseOn w .requestedIncompatibleQos rdn else w
     | _, _ => w
   | _, _ => w
 
-/-- one worker iteration: every persisting condition is notified again, with the masks of this moment -/
-def iterate (w : World) : World :=
+/-- one worker iteration (API call or 50 ms poke): nothing is notified unless a status changes -/
+def iterate (w : World) : World := { w with lastIter := w.now }
+
+/-- before D-listen-1.patch / D-listen-2.patch: every persisting condition was notified again on every iteration,
+    with the masks of that moment -/
+def iterateOld (w : World) : World :=
   let w := w.persist.foldl (fun w p => match w.find p.2 with
-    | some e => raise w p.1 e
+    | some e => raiseOld w p.1 e
     | none => w) w
   { w with lastIter := w.now }
 
